@@ -81,6 +81,7 @@ class Check:
         node: ast.AST | None = None,
         fn: ast.AST | None = None,
         instance: str = "",
+        detail: str = "",
         reason: str = "",
         path: list | None = None,
     ) -> bool:
@@ -90,7 +91,9 @@ class Check:
         q = qualname_of(fn) if fn is not None else ""
         if fn is not None and m is not None:
             self.note_fn(m, fn)
-        key = f"{rule}|{m.name if m else ''}:{q}|{instance}"
+        # `detail` (optional) fingerprints *how* the obligation fails (e.g. the observed index sequence), so that a
+        # known finding does not mask a different failure of the same construct
+        key = f"{rule}|{m.name if m else ''}:{q}|{instance}" + (f"|{detail}" if (detail and not ok) else "")
         self.analysed["rules"].add(rule)
         self.obligations.append(Obligation(rule, desc, bool(ok), where, q, key, "" if ok else reason, path or []))
         return bool(ok)
